@@ -205,6 +205,9 @@ func validGen(r *rand.Rand, n int, tier string, emit func(Case)) {
 			g := l.rawGeom(0)
 			c := Case{"kind": "geom", "w": g.AsText()}
 			if r.Intn(3) == 0 {
+				c["hist"] = 1 + r.Intn(7) // the value reaches Validate through another library operation first
+			}
+			if r.Intn(3) == 0 {
 				c["t"] = l.randSimil().toCase()
 			}
 			emit(c)
